@@ -216,7 +216,7 @@ def h_gyr(ctx, N, d):
     if sym:
         from symx import npf
         npf.EIG_LOG.clear()
-    res = sh.gyration_tensor(pts.copy())
+    res = sh.gyration_tensor(pts if getattr(ctx, "frame", False) else pts.copy())
     ctx.output("descriptors", list(res))
     ctx.oblige("count", len(res) == (5 if d == 3 else 3))
     rg = res[0]
